@@ -39,7 +39,11 @@ func negate(a byte) byte {
 	return a
 }
 
-func monoOf(v ssa.Value, depth int) mono {
+func monoOf(v ssa.Value, depth int) mono { return monoOfCtx(v, nil, depth) }
+
+// monoOfCtx: monotonicity of v in (age, size); ctx is the chain of helper calls entered, so that a
+// helper's parameters stand for the caller's arguments.
+func monoOfCtx(v ssa.Value, ctx dctx, depth int) mono {
 	if depth > 12 {
 		return mono{'?', '?'}
 	}
@@ -47,9 +51,14 @@ func monoOf(v ssa.Value, depth int) mono {
 	if _, ok := constInt(v); ok {
 		return mono{'0', '0'}
 	}
+	if prm, ok := v.(*ssa.Parameter); ok {
+		if a, c2, ok := paramArg(prm, ctx); ok {
+			return monoOfCtx(a, c2, depth+1)
+		}
+	}
 	switch x := v.(type) {
 	case *ssa.BinOp:
-		a, b := monoOf(x.X, depth+1), monoOf(x.Y, depth+1)
+		a, b := monoOfCtx(x.X, ctx, depth+1), monoOfCtx(x.Y, ctx, depth+1)
 		switch x.Op {
 		case token.ADD:
 			return mono{combineAdd(a.age, b.age), combineAdd(a.size, b.size)}
@@ -74,21 +83,21 @@ func monoOf(v ssa.Value, depth int) mono {
 		args := callArgs(x)
 		switch n {
 		case "(time.Duration).Milliseconds", "(time.Duration).Seconds", "(time.Duration).Microseconds", "(time.Duration).Nanoseconds", "(time.Duration).Minutes", "(time.Duration).Hours":
-			return monoOf(args[0], depth+1)
+			return monoOfCtx(args[0], ctx, depth+1)
 		case "(time.Time).Sub":
 			// now.Sub(LastAccess): grows with age; LastAccess.Sub(now): shrinks
-			if isLastAccess(args[1]) {
+			if isLastAccessCtx(args[1], ctx) {
 				return mono{'+', '0'}
 			}
-			if isLastAccess(args[0]) {
+			if isLastAccessCtx(args[0], ctx) {
 				return mono{'-', '0'}
 			}
 		case "time.Since":
-			if isLastAccess(args[0]) {
+			if isLastAccessCtx(args[0], ctx) {
 				return mono{'+', '0'}
 			}
 		case "time.Until":
-			if isLastAccess(args[0]) {
+			if isLastAccessCtx(args[0], ctx) {
 				return mono{'-', '0'}
 			}
 		}
@@ -100,7 +109,7 @@ func monoOf(v ssa.Value, depth int) mono {
 				n := 0
 				eachInstr(g, func(in ssa.Instruction) {
 					if ret, ok := in.(*ssa.Return); ok && len(ret.Results) == 1 {
-						m := monoOf(ret.Results[0], depth+1)
+						m := monoOfCtx(ret.Results[0], append(append(dctx{}, ctx...), x), depth+1)
 						if n == 0 {
 							res = m
 						} else if m != res {
@@ -117,7 +126,7 @@ func monoOf(v ssa.Value, depth int) mono {
 		return mono{'?', '?'}
 	case *ssa.UnOp:
 		if x.Op == token.SUB {
-			a := monoOf(x.X, depth+1)
+			a := monoOfCtx(x.X, ctx, depth+1)
 			return mono{negate(a.age), negate(a.size)}
 		}
 		if x.Op == token.MUL {
@@ -131,6 +140,19 @@ func monoOf(v ssa.Value, depth int) mono {
 		}
 	}
 	return mono{'?', '?'}
+}
+
+func isLastAccessCtx(v ssa.Value, ctx dctx) bool {
+	_, p := ctxFieldPath(v, ctx)
+	if len(p) > 0 && p[len(p)-1] == "LastAccess" {
+		return true
+	}
+	if prm, ok := resolveVal(v).(*ssa.Parameter); ok {
+		if a, c2, ok := paramArg(prm, ctx); ok {
+			return isLastAccessCtx(a, c2)
+		}
+	}
+	return isLastAccess(v)
 }
 
 func isLastAccess(v ssa.Value) bool {
